@@ -23,11 +23,29 @@ def gen_corr(seed, i):
         feats.append("coords")
     net = netgen.gen_net(rng, dim=dim, noise=True, features=tuple(feats))
     # every obs / hdiff cluster gets a covariance matrix with a random band 0..dim-1
+    # a levelling cluster is split in two so that a cluster with a matrix is followed by one given by standard
+    # deviations only (what the parser buffered for the first must not leak into the second)
+    out = []
     for cl in net.clusters:
-        if cl.kind in ("obs", "hdiff") and len(cl.obs) >= 2:
+        out.append(cl)
+        if cl.kind == "hdiff" and len(cl.obs) >= 5 and rng.uniform() < 0.7:
+            k = int(rng.integers(2, len(cl.obs) - 1))
+            tail = netgen.Cluster("hdiff")
+            tail.obs, cl.obs = cl.obs[k:], cl.obs[:k]
+            cl.cov = None                   # (a new matrix is drawn below)
+            tail.tag_stdev_only = True
+            out.append(tail)
+    net.clusters = out
+    # (almost) every obs / hdiff cluster gets a covariance matrix with a random band 0..dim-1
+    for cl in net.clusters:
+        if cl.kind in ("obs", "hdiff") and len(cl.obs) >= 2 and not getattr(cl, "tag_stdev_only", False) \
+                and rng.uniform() < 0.85:
             sd = np.array([o.stdev for o in cl.obs])
             band = int(rng.integers(0, len(sd)))
             cl.cov = dict(band=band, C=netgen.rand_cov(rng, sd, band))
+            if cl.kind == "hdiff":
+                for o in cl.obs:          # documented attribute of <dh>; without effect next to a <cov-mat>
+                    o.dist = round(float(rng.uniform(0.3, 2.0)), 3)
     net.params["tol_abs"] = 1000.0
     return rng, net, feats
 
@@ -79,6 +97,12 @@ def block_dense(bl):
     return C
 
 
+def netlevel_consistent(fr):
+    """axes-xy and angle handedness agree (gama adjusts such input without mirroring y)"""
+    left = fr.axes in netgen.AXES_LEFT
+    return left == (fr.angles == "left-handed")
+
+
 def network_part(ck, tier, seed):
     n = tier_n(tier, 120, 1200)
     fr = netgen.Frame()
@@ -104,14 +128,29 @@ def network_part(ck, tier, seed):
                     cl.cov = None
             jobs.append((i, "diag-matrix", d, feats, alg, set()))
             jobs.append((i, "per-obs-stdev", s, feats, alg, set()))
+        if i % 4 in (2, 3) and net.dim >= 2 and not excl:
+            # (d): the same correlated survey described in an inconsistent axes/handedness convention (gama mirrors y
+            # internally and has to mirror the covariance matrices with it: S C S)
+            jobs.append((i, "mirror-base", net, feats, alg, set()))
+            jobs.append((i, "mirror", net, feats, alg, set()))
+
+    def mirror_frame(i):
+        r = np.random.default_rng([seed, i, 101010])
+        axes = str(r.choice(netgen.AXES_ALL))
+        for hand in r.permutation(["left-handed", "right-handed"]):
+            f2 = netgen.Frame(axes=axes, angles=str(hand))
+            if not netlevel_consistent(f2):
+                return f2
+        return netgen.Frame(axes="ne", angles="right-handed")
 
     def work(job):
         i, name, net, feats, alg, excl = job
-        txt = netgen.to_gkf(net, fr)
+        txt = netgen.to_gkf(net, mirror_frame(i) if name == "mirror" else fr)
         return job, xmlout.run_gama_local(txt, ck.tmp, "n%d-%s" % (i, name), args=["--algorithm", alg], trace=True), txt
 
     res = runner.pmap(work, jobs)
     pairs = {}
+    mirrors = {}
     for (i, name, net, feats, alg, excl), g, txt in res:
         wit = dict(seed=seed, index=i, variant=name, alg=alg, kind=net.kind, features=feats,
                    input=txt if len(ck.violations) < 3 else None)
@@ -126,6 +165,9 @@ def network_part(ck, tier, seed):
             continue
         if name in ("diag-matrix", "per-obs-stdev"):
             pairs.setdefault(i, {})[name] = (g, net)
+            continue
+        if name in ("mirror-base", "mirror"):
+            mirrors.setdefault(i, {})[name] = (g, net)
             continue
         evs = netlevel.adjust_events(g)
         if not evs:
@@ -199,6 +241,25 @@ def network_part(ck, tier, seed):
             ck.violation("diagonal-matrix-vs-stdev:%s" % key, msg + " [%s, case %d]" % (n1.kind, i),
                          dict(seed=seed, index=i, kind=n1.kind))
         ck.case(("diag-vs-stdev", n1.kind))
+    for i, d in mirrors.items():
+        if len(d) != 2:
+            continue
+        (g1, n1), (g2, n2) = d["mirror-base"], d["mirror"]
+        f2 = mirror_frame(i)
+        A = netlevel.physical_result(g1.xml, fr)
+        B = netlevel.physical_result(g2.xml, f2)
+        same = g1.xml.get("iterations") == g2.xml.get("iterations")
+        bad = netlevel.compare_physical(A, B, what=("points", "obs", "stats")) if same else \
+            netlevel.compare_physical(A, B, what=("points", "obs", "stats"), tol_m=1e-6,
+                                      rel=netlevel.rel_between_linearisation_points(n1), res_tol=1e-2)
+        corr = netlevel.correlated_obs_keys(n1)
+        for key, msg, okey in bad[:3]:
+            if okey is not None and okey in corr and key.split(":")[1] in ("stdev", "qrr", "f"):
+                continue        # C07 known finding (statistics of correlated observations)
+            ck.violation("mirrored-frame:%s" % key, msg + " [%s vs ne/left-handed, %s, case %d]" % (
+                f2.axes + "/" + f2.angles, n1.kind, i), dict(seed=seed, index=i, kind=n1.kind, frame=[f2.axes, f2.angles]))
+        ck.case(("mirrored-frame", n1.kind, "vectors" if any(c.kind == "vectors" for c in n1.clusters) else "-",
+                 "coords" if any(c.kind == "coords" for c in n1.clusters) else "-"))
 
 
 # ---------------------------------------------------------------- (c) whitened reformulation, solver level
